@@ -65,7 +65,8 @@ class CBech32BitcoinAddress(bitcoin.bech32.CBech32Data, CBitcoinAddress):
     @classmethod
     def from_bytes(cls, witver, witprog):
 
-        assert witver == 0
+        if witver != 0:
+            raise CBitcoinAddressError('witness version %r is not supported' % (witver,))
         self = super(CBech32BitcoinAddress, cls).from_bytes(
             witver,
             bytes(witprog)
